@@ -43,6 +43,18 @@ class BaseCube(object, metaclass=abc.ABCMeta):
     def __init__(self, valid=None, names=None, distance=None, wav=None,
                  nu=None, apertures=None, val=None, unc=None):
 
+        # The setters below validate each value against the attributes that
+        # are already set, so all of them have to exist before the first
+        # setter runs
+        self._valid = None
+        self._names = None
+        self._distance = None
+        self._wav = None
+        self._nu = None
+        self._apertures = None
+        self._val = None
+        self._unc = None
+
         # Which models are valid
         self.valid = valid
 
